@@ -1,23 +1,184 @@
 import Pymc.Model.Bytes
 import Pymc.Model.Murmur3
+import Pymc.Model.Retrying
+import Pymc.Model.Fallback
+import Pymc.Model.Key
+import Pymc.Model.Rendezvous
+import Pymc.Model.Readers
 /-! Line-protocol driver of the Lean models (one request per line, one reply line per request).
     Rejects what it cannot parse (`bad-op`), never defaults. -/
 open Bytes
 
 def natArgs (ws : List String) : Option (List Nat) := ws.mapM String.toNat?
 
+/-- `a,b,c` → list of naturals; `-` is the empty list -/
+def natList (s : String) : Option (List Nat) :=
+  if s = "-" then some [] else (s.splitOn ",").mapM String.toNat?
+
+/-- look up `key=` among tokens -/
+def arg (ws : List String) (key : String) : Option String :=
+  ws.findSome? fun w => if w.startsWith (key ++ "=") then some (w.drop (key.length + 1)).toString else none
+
+def hexList (s : String) : Option (List Bytes) :=
+  if s = "" then some [] else (s.splitOn ",").mapM Bytes.ofHex
+
+/-! ### C17 -/
+def parseOutcome (s : String) : Option Retrying.Outcome :=
+  match s.splitOn ":" with
+  | ["o", v] => v.toNat?.map .ok
+  | ["e", c, i] => do pure (.exc (← c.toNat?) (← i.toNat?))
+  | _ => none
+
+def parsePairs (s : String) : Option (List (Nat × Nat)) :=
+  if s = "-" then some [] else
+  (s.splitOn ",").mapM fun p => match p.splitOn ">" with
+    | [a, b] => do pure ((← a.toNat?), (← b.toNat?))
+    | _ => none
+
+def showResult : Retrying.Result → String
+  | .value v => s!"value:{v}"
+  | .raised c i => s!"raised:{c}:{i}"
+  | .fellThrough => "fellthrough"
+  | .scriptExhausted => "exhausted"
+
+def handleRetry (ws : List String) : Option String := do
+  let attempts ← (← arg ws "attempts").toNat?
+  let rf ← natList (← arg ws "rf")
+  let dnr ← natList (← arg ws "dnr")
+  let dir ← arg ws "dir"
+  let sub ← parsePairs (← arg ws "sub")
+  let scr ← arg ws "script"
+  let script ← if scr = "-" then some [] else (scr.splitOn ",").mapM parseOutcome
+  let cfg : Retrying.Cfg := ⟨attempts, rf, dnr, dir = "1", fun c k => c = k || sub.contains (c, k)⟩
+  let r := Retrying.retry cfg script
+  pure s!"ok res={showResult r.result} inv={r.invocations} sleeps={r.sleeps}"
+
+def parseKind : String → Option Retrying.ArgKind
+  | "none" => some .none | "tuple" => some .tuple | "set" => some .set | "list" => some .list
+  | "other" => some .other | _ => none
+
+def handleRetryCtor (ws : List String) : Option String := do
+  let att ← (← arg ws "attempts").toInt?
+  let rfk ← parseKind (← arg ws "rfk")
+  let rf ← natList (← arg ws "rf")
+  let dk ← parseKind (← arg ws "dnrk")
+  let dnr ← natList (← arg ws "dnr")
+  let exc ← natList (← arg ws "exc")
+  let a : Retrying.CtorArgs := ⟨att, rfk, rf, dk, dnr, fun c => exc.contains c⟩
+  pure (if Retrying.ctorOk a then "ok constructed" else "ok ValueError")
+
+/-! ### C18 -/
+def handleFallback (ws : List String) : Option String := do
+  let mode ← arg ws "mode"          -- `single`: hit = not None ; `multi`: hit = truthy
+  let ans ← arg ws "answers"        -- comma list: `N` (None), `E` (empty/falsy non-None), `H<id>` (truthy hit)
+  let answers := if ans = "-" then [] else ans.splitOn ","
+  let hit : String → Bool := fun a =>
+    if mode = "single" then a ≠ "N" else a.startsWith "H"
+  let (r, n) := Fallback.firstHit hit answers
+  pure s!"ok result={r.getD "FALLTHROUGH"} consulted={n}"
+
+/-! ### C20 / C02 -/
+def parseKey (s : String) : Option Key.K :=
+  if s.startsWith "b:" then (Bytes.ofHex (s.drop 2).toString).map .bytes
+  else if s.startsWith "s:" then (natList (s.drop 2).toString).map .str
+  else none
+
+def handleCheckKey (ws : List String) (orig : Bool) : Option String := do
+  let au ← arg ws "au"
+  let pfx ← Bytes.ofHex (← arg ws "pfx")
+  let k ← parseKey (← arg ws "k")
+  let r := if orig then Key.checkKeyOrig (au = "1") pfx k else Key.checkKey (au = "1") pfx k
+  pure (match r with
+    | .ok w => s!"ok {Bytes.toHex w}"
+    | .error _ => "err IllegalInput")
+
+def handleSplitWs (ws : List String) : Option String := do
+  let b ← Bytes.ofHex (← arg ws "b")
+  pure ("ok " ++ ",".intercalate ((Key.pySplitWs b).map Bytes.toHex))
+
+def handleUtf8 (ws : List String) : Option String := do
+  let cps ← natList (← arg ws "cps")
+  pure ("ok " ++ Bytes.toHex (Key.encodeUtf8 cps))
+
+/-! ### C11 -/
+/-- `getnode seed=<n> key=<cps> nodes=<cps>;<cps>;…` with score = murmurPy(node ++ "-" ++ key) -/
+def cpsToString (cps : List Nat) : String := String.ofList (cps.map Char.ofNat)
+
+def handleGetNode (ws : List String) : Option String := do
+  let seed ← (← arg ws "seed").toNat?
+  let key ← natList (← arg ws "key")
+  let ns ← arg ws "nodes"
+  let nodes ← if ns = "-" then some [] else (ns.splitOn ";").mapM natList
+  let names := nodes.map cpsToString
+  let mode := (arg ws "hash").getD "murmur"
+  let score : String → Nat := fun n =>
+    let cps := (n.toList.map Char.toNat) ++ [45] ++ key
+    if mode = "const" then 7
+    else if mode = "two" then (Murmur.murmurPy cps seed) % 2
+    else Murmur.murmurPy cps seed
+  let w := Rendezvous.getNode score names
+  pure (match w with
+    | some n => "ok " ++ ",".intercalate (n.toList.map (toString ∘ Char.toNat))
+    | none => "ok NONE")
+
+/-! ### C03 readers -/
+def parseEv (s : String) : Option Readers.Ev :=
+  if s = "i" then some .eintr
+  else if s.startsWith "d:" then (Bytes.ofHex (s.drop 2).toString).map .data
+  else if s.startsWith "x:" then (s.drop 2).toString.toNat?.map .err
+  else none
+
+def evsOf (ws : List String) : Option (List Readers.Ev) :=
+  (ws.filter (·.startsWith "ev=")).mapM fun w => parseEv (w.drop 3).toString
+
+def showEvLeft (evs : List Readers.Ev) : String := toString (Readers.joinData evs).length
+
+def showReader (r : Except Readers.Err (Bytes × Bytes × List Readers.Ev)) : String :=
+  match r with
+  | .ok (rest, x, evs) => s!"ok item={Bytes.toHex x} rest={Bytes.toHex (rest ++ Readers.joinData evs)}"
+  | .error .unexpectedClose => "err UnexpectedClose"
+  | .error (.sock c) => s!"err Sock{c}"
+  | .error .indexError => "err IndexError"
+
+def handleReader (ws : List String) : Option String := do
+  let which ← arg ws "r"
+  let buf ← Bytes.ofHex (← arg ws "buf")
+  let evs ← evsOf ws
+  match which with
+  | "line" => pure (showReader (Readers.readline [] buf evs))
+  | "value" => do
+    let size ← (← arg ws "size").toInt?
+    pure (showReader (Readers.readvalue buf size evs))
+  | "segment" => do
+    let tok ← Bytes.ofHex (← arg ws "tok")
+    pure (showReader (Readers.readsegment tok buf evs))
+  | "segment-orig" => do
+    let tok ← Bytes.ofHex (← arg ws "tok")
+    pure (showReader (Readers.readsegmentOrig tok buf evs))
+  | _ => none
+
 def handle (ws : List String) : String :=
-  match ws with
-  | "murmur" :: seed :: cps =>
-    match seed.toNat?, natArgs cps with
-    | some s, some d => s!"ok {Murmur.murmurPy d s}"
-    | _, _ => "bad-op"
-  | ["murmurref", seed, hex] =>
-    match seed.toNat?, Bytes.ofHex hex with
-    | some s, some d =>
-      s!"ok {(Murmur.murmurRef (d.map fun b => BitVec.ofNat 8 b.toNat) (BitVec.ofNat 32 s)).toNat}"
-    | _, _ => "bad-op"
-  | _ => "bad-op"
+  let r : Option String :=
+    match ws with
+    | "murmur" :: seed :: cps => do
+      let s ← seed.toNat?
+      let d ← natArgs cps
+      pure s!"ok {Murmur.murmurPy d s}"
+    | ["murmurref", seed, hex] => do
+      let s ← seed.toNat?
+      let d ← Bytes.ofHex hex
+      pure s!"ok {(Murmur.murmurRef (d.map fun b => BitVec.ofNat 8 b.toNat) (BitVec.ofNat 32 s)).toNat}"
+    | "retry" :: rest => handleRetry rest
+    | "retryctor" :: rest => handleRetryCtor rest
+    | "fallback" :: rest => handleFallback rest
+    | "checkkey" :: rest => handleCheckKey rest false
+    | "checkkey-orig" :: rest => handleCheckKey rest true
+    | "splitws" :: rest => handleSplitWs rest
+    | "utf8" :: rest => handleUtf8 rest
+    | "getnode" :: rest => handleGetNode rest
+    | "reader" :: rest => handleReader rest
+    | _ => none
+  r.getD "bad-op"
 
 partial def loop (i o : IO.FS.Stream) : IO Unit := do
   let line ← i.getLine
